@@ -448,7 +448,9 @@ pub fn start_end(sp: &Spawner, obs: &ObsRef, stream: MuxStream, tag: Tag, side: 
             let (o1, o2) = (obs.clone(), obs.clone());
             let (b2, a2) = (bname.clone(), aname.clone());
             sp.spawn(bname, GROUP_NONE, async move {
-                let r = stream.into_copy_bidirectional(local).await;
+                // a local pipe of a megabyte or more stands for "a fast producer": it is read through a buffer whose size
+                // does not divide the frame limit (the caller may bring any buffer), else through the default one
+                let r = if cap >= 1_000_000 { stream.into_copy_bidirectional_with_buf(tokio::io::BufReader::with_capacity(12_345, local)).await } else { stream.into_copy_bidirectional(local).await };
                 o1.borrow_mut().ev(Ev::Note(format!("bridge {b2} ended: {:?}", r.map_err(|e| e.kind()))));
                 o1.borrow_mut().end(&b2);
             });
